@@ -7,6 +7,8 @@ cd "$VERIF_DIR/sim" || exit 2
 case "$1" in
  plain)
   sed "s#=> /repo#=> $VERIF_REPO#" go.mod > "$VERIF_BUILD/go.plain.mod" && cp go.sum "$VERIF_BUILD/go.plain.sum"
+  # a 32-bit build of the same runner: two workers of the single-task engines use it (int is 32 bits there)
+  GOARCH=386 go build -tags verif -modfile="$VERIF_BUILD/go.plain.mod" -o "$VERIF_BUILD/runner-386" ./cmd/runner 2> "$VERIF_BUILD/build-386.log" || rm -f "$VERIF_BUILD/runner-386"
   go build -tags verif -modfile="$VERIF_BUILD/go.plain.mod" -o "$VERIF_BUILD/runner" ./cmd/runner 2> "$VERIF_BUILD/build-plain.log" || { cat "$VERIF_BUILD/build-plain.log" >&2; echo "BUILD-ERROR: runner does not build against /repo" >&2; exit 2; } ;;
  race)
   # C20 builds against a scratch copy of /repo's working tree in which a
